@@ -257,7 +257,7 @@ type dynCfg struct {
 // distinguish all elements (natural, reversed) are used.
 func drawCfg(r *core.R, total bool) dynCfg {
 	natural := false
-	cfg := dynCfg{cmp: r.Intn(3), vcmp: r.Intn(3), order: btreeOrders[r.Intn(len(btreeOrders))], cap: ringCaps[r.Intn(len(ringCaps))]}
+	cfg := dynCfg{cmp: r.Intn(4), vcmp: r.Intn(4), order: btreeOrders[r.Intn(len(btreeOrders))], cap: ringCaps[r.Intn(len(ringCaps))]}
 	if r.Bool() {
 		cfg.cap = r.Range(1, 9)
 		cfg.order = btreeOrders[r.Intn(4)]
@@ -266,7 +266,7 @@ func drawCfg(r *core.R, total bool) dynCfg {
 		cfg.cmp, cfg.vcmp = 0, 0
 	}
 	if total {
-		cfg.cmp, cfg.vcmp = r.Intn(2), r.Intn(2)
+		cfg.cmp, cfg.vcmp = []int{0, 1, 3}[r.Intn(3)], []int{0, 1, 3}[r.Intn(3)]
 	}
 	return cfg
 }
@@ -275,7 +275,7 @@ func drawCfg(r *core.R, total bool) dynCfg {
 // containers) or key domain d and value domain dv (key-value containers).
 func NewDyn[T comparable, V comparable](kind string, d *Dom[T], dv *Dom[V], cfg dynCfg) *Dyn {
 	dy := newDyn(kind, d, dv, cfg)
-	dy.TotalOrder = cfg.cmp < 2 && cfg.vcmp < 2
+	dy.TotalOrder = cfg.cmp != 2 && cfg.vcmp != 2
 	attachReads(dy, d, dv, cfg)
 	return dy
 }
